@@ -208,7 +208,13 @@ def h_decode(sym):
     cf = new_cf(10, [toc_element(10 + k, 'g', f'v{k}', 1) for k in range(nv)])
     lc = LogConfig('blk', 100)
     for k in range(nv):
-        lc.add_variable(NAMES[k], types[k][0])
+        if sym.B.get('memory') and ours and k % 2 == 0:
+            # raw-memory variable whose STORED type differs in size from its fetch type: the data packet carries fetch-size values
+            stored = FW_TYPES[(tsel[k] + 1 + sym.choice(f's{k}', 7)) % 8][0]
+            lc.add_memory(NAMES[k], types[k][0], stored, 0x20000000 + 4 * k)
+            sym.goal('memory-variable')
+        else:
+            lc.add_variable(NAMES[k], types[k][0])
     got = []
     lc.data_received_cb.add_callback(lambda t, d, c: got.append((t, d, c)))
     cf.log.add_config(lc)
@@ -671,6 +677,9 @@ HARNESSES = [
             goals=('created',)),
     Harness('create_mem', h_create_mem, quick=dict(n=7), thorough=dict(n=9), timeout=(300, 1200),
             goals=('memory-variable', 'split')),
+    Harness('decode[memory vars]', h_decode, quick=dict(k=2, exact=True, memory=True), thorough=dict(k=3, exact=True, memory=True),
+            timeout=(600, 1800), smt_timeout=1.5, goals=('decoded', 'memory-variable'),
+            note='raw-memory variables whose stored type has another size than the fetch type, followed by a table variable'),
     Harness('decode', h_decode, quick=dict(k=3), thorough=dict(k=3), timeout=(300, 900), smt_timeout=1.5,
             goals=('decoded', 'other-block', 'float', 'fp16', 'signed')),
     Harness('lifecycle', h_lifecycle, quick=dict(n=5, create_statuses=3, defaults=True),
